@@ -5,7 +5,7 @@ open RgVerif RgVerif.BufWriter RgVerif.BlockSpec
 /-
 Requests (SEP = hex bytes | none; the empty separator of --heading is `-`)
   c08.par  SEP (blocks hex…)          -> hex   output of search_parallel when the lock order is `blocks`
-  c08.parstats SEP (blocks hex…) TRAILER -> hex  search_parallel with --stats: the trailer goes through bufwtr.print
+  c08.parstats SEP (blocks hex…) TRAILER -> hex  search_parallel with --stats: the trailer follows straight on stdout (78b4250)
   c08.seq  SEP TERM (blocks hex…)     -> hex   output of search over `blocks` in traversal order
   c08.join SEP TERM (blocks hex…)     -> hex   contract: non-empty blocks joined by SEP++TERM
   c08.seqb SEP TERM (items (hex 0|1)…)-> hex   search; 1 = the block is a bare `binary file matches` message
